@@ -37,7 +37,7 @@ def firstDifference (a b : Dump) : Option String :=
   else if a.cm != b.cm then some "chunk-manifest-flag"
   else none
 
-def agreeJudge (op : String) (ok : Bool) (unchanged : Bool := false) (ds : List Dump) : Option String :=
+def agreeJudge (op : String) (ok : Bool) (_unchanged : Bool := false) (ds : List Dump) : Option String :=
   if !ok then none else
   match ds with
   | [] => none
@@ -45,7 +45,9 @@ def agreeJudge (op : String) (ok : Bool) (unchanged : Bool := false) (ds : List 
     match rest.findSome? (firstDifference p) with
     | none => none
     | some what =>
-      -- a 204 "unchanged" answer comes from isFileUnchanged on the primary: whatever differs, it is one defect
-      if unchanged then some s!"{op}/answers-unchanged-but-replicas-differ" else some s!"{op}/replicas-differ-in-{what}"
+      -- name / pairs / last-modified / ttl / flag differences all come from one defect: isFileUnchanged keeps the old needle
+      -- (with its old metadata) on the replicas whose stored bytes equal the new ones, the others rewrite it
+      if what == "presence" || what == "content" || what == "mime" then some s!"{op}/replicas-differ-in-{what}"
+      else some s!"{op}/replicas-differ-in-metadata-of-unchanged-bytes"
 
 end SwV.Spec.C40
